@@ -54,10 +54,9 @@ Definition chk (c : case) : list N :=
       code_if (match obs, oe with
                | ObsPatched a' rest, Some e => rest && frame_ok c (e_annots e) a'
                | ObsFailed n cs' rest, _ =>
-                   rest && match rev cs' with
-                           | last :: before => list_eqb cond_eqb (rev before) (conds_of rs_conds n) &&
-                                               N.eqb (c_type last) CT_CanaryFailed && cstatus_eqb (c_status last) CTrue
-                           | [] => false end
+                   (* the conditions of every other type are what they were, in the same order *)
+                   rest && list_eqb cond_eqb (filter (fun c => negb (N.eqb (c_type c) CT_CanaryFailed)) cs')
+                                             (filter (fun c => negb (N.eqb (c_type c) CT_CanaryFailed)) (conds_of rs_conds n))
                | ObsOther, _ => false
                | _, _ => true end) 10 ++
       (* the effect: the annotations after the command say what the command means, in the controllers' own reading of them
@@ -79,6 +78,11 @@ Definition chk (c : case) : list N :=
                    | CanaryFail => false
                    end
                | _, _ => true end) 12 ++
+      (* fail: the conditions written mark the replica set failed in the controllers' own reading (the first condition of
+         the type) - that is what leads to the rollback *)
+      code_if (match obs with
+               | ObsFailed _ cs' _ => is_cond_true cs' CT_CanaryFailed
+               | _ => true end) 13 ++
       (* preconditions: an active canary for the canary commands (plus a canary strategy for pause/unpause/fail);
          none for rolling-update pause and freeze *)
       code_if (match oe with
